@@ -95,7 +95,9 @@ func distSource(r *kernel.Rng, spec *kernel.WorldSpec, cfg DistGenCfg, o distPro
 		recips = append(recips, kernel.ActorBech(c))
 	}
 	g := &genSource{rng: r, nBlocks: r.Range(o.Blocks[0], o.Blocks[1]), Cadence: regularCadence, MaxTxs: 4, PTx: 0.7,
-		TxGens: []TxGen{bankSendGen(senders, recips, true)}}
+		// squatting (an ordinary account created at a collector's address) makes that collector unpayable for good: a
+		// persistent natural fault, so only where such faults are part of the profile
+		TxGens: []TxGen{bankSendGen(senders, recips, true, o.Faulty || o.BlockedDests)}}
 	if o.GenMinter {
 		// governance lowers (or raises) the amounts of the running schedule now and then: a period may end up having
 		// minted more than its new total
